@@ -237,3 +237,30 @@ package rtmp
 //@   assert after "stream.header.Csid = csid" [C08.rd.setchunksize] stream.header.MsgTypeId == 1 && stream.msg.buff.wpos - stream.msg.buff.rpos >= 4 ==> c.peerChunkSize == be32(stream.msg.buff.core, stream.msg.buff.rpos)
 //@   assert after "stream.msg.Skip(aggregateStream.header.MsgLen)" [C08.rd.aggregate] int: aggregateStream != stream ==> aggregateStream.msg.buff.wpos - aggregateStream.msg.buff.rpos == int(aggregateStream.header.MsgLen)
 //@ end
+
+// Protocol-control handlers: each is verified on its own (callers use the contract only), so that their
+// panic-freedom does not depend on the size of doMsg.
+//@ func (*ServerSession).doUserControl
+//@   props C04
+//@   opaque
+//@ end
+//@ func (*ServerSession).doAck
+//@   props C04
+//@   opaque
+//@ end
+//@ func (*ServerSession).doWinAckSize
+//@   props C04
+//@   opaque
+//@ end
+//@ func (*ClientSession).doUserControl
+//@   props C13
+//@   opaque
+//@ end
+//@ func (*ClientSession).doAck
+//@   props C13
+//@   opaque
+//@ end
+//@ func (*ClientSession).doProtocolControlMessage
+//@   props C13
+//@   opaque
+//@ end
